@@ -410,7 +410,48 @@ def rule_validation(ctx: Ctx) -> None:
                   str(need), f"missing positivity assertion(s): {[x for x in need if x not in asserts]}", key_text=f"{cname} asserts")
 
 
+def rule_impact_sign(ctx: Ctx) -> None:
+    """Discharges the interpreter's assumption 'price impact >= 0' for every LiquidityStrategy in basana."""
+    base = "basana.backtesting.liquidity.LiquidityStrategy"
+    impls = [c for c in ctx.facts.subclasses(base) if c != base and c in ctx.repo.classes]
+    ctx.floor("C04.4", "liquidity strategies", len(impls), 2)
+    for cls in impls:
+        fn = ctx.repo.funcs.get(f"{cls}.calculate_price_impact")
+        ctx.require(fn is not None, f"C04.4: {cls}.calculate_price_impact not found")
+        ctx.analysed_funcs.add(fn.qualname)
+        rets = [r for r in C.walk_shallow(fn.node) if isinstance(r, ast.Return) and r.value is not None]
+        ok = bool(rets)
+        why = []
+        for r in rets:
+            v = r.value
+            if K.const_num(v) is not None:
+                ok &= K.const_num(v) >= 0
+                why.append(ast.unparse(v))
+            elif isinstance(v, ast.Call) and (A.call_name(v) or "") == "self._volume_share_impact":
+                h = ctx.repo.funcs.get(f"{cls}._volume_share_impact")
+                okh = False
+                if h is not None:
+                    ctx.analysed_funcs.add(h.qualname)
+                    vals = [s.node.value for s in A.stores(h) if isinstance(s.target, ast.Name) and s.target.id == "ret" and isinstance(s.node, ast.Assign)]
+                    # ret is 0, or (used / total) ** 2 * pct with pct = price_impact / 100 and price_impact >= 0 asserted
+                    okh = bool(vals) and all(
+                        (K.const_num(x) is not None and K.const_num(x) >= 0)
+                        or ast.unparse(x).replace(" ", "") == "used_pct**Decimal(2)*self._price_impact_pct" for x in vals)
+                    init = ctx.repo.funcs.get(f"{cls}.__init__")
+                    asserts = [ast.unparse(n.test) for n in C.walk_shallow(init.node) if isinstance(n, ast.Assert)] if init else []
+                    okh = okh and "price_impact >= Decimal(0)" in asserts and "self._price_impact_pct = price_impact / Decimal(100)" in ast.unparse(init.node)
+                ok &= okh
+                why.append("square x non-negative percentage")
+            else:
+                ok = False
+                why.append(f"unrecognised {ast.unparse(v)[:40]}")
+        ctx.check(ok, "C04.4", f"{cls.rsplit('.', 1)[-1]}: price impact is never negative (premise of the slippage bounds)", fn, fn.node, str(why),
+                  f"cannot establish impact >= 0 ({why}): a negative impact would move a buy below / a sell above the reference price",
+                  key_text=f"impact sign {cls}")
+
+
 def run(ctx: Ctx) -> None:
+    rule_impact_sign(ctx)
     t = evaluate_obligations(ctx)
     ctx.exhaustive = True
     report(ctx, t, rules_for={"C04.1"})
